@@ -16,6 +16,13 @@ REPO = os.environ.get("VERIF_REPO", "/repo")
 COQ = os.path.join(VERIF, "coq")
 EVID = os.path.join(VERIF, "evidence")
 REPLAYS = os.path.join(VERIF, "replays")
+if os.path.realpath(REPO) != "/repo":
+    # mutation trials against a private copy of the repository get a private Coq build directory,
+    # so that regenerated models never disturb the shared one
+    COQ = "/var/tmp/verif-coq-" + hashlib.md5(os.path.realpath(REPO).encode()).hexdigest()[:8]
+    subprocess.run(["rsync", "-a", "--exclude", ".lock", os.path.join(VERIF, "coq") + "/", COQ + "/"], check=True)
+    EVID = COQ + "-evidence"
+    REPLAYS = COQ + "-replays"
 PY = "/venv/bin/python"
 COQ_DIRS = ["lib", "spec", "model", "gen", "proofs", "props"]
 QFLAGS = []
